@@ -492,7 +492,10 @@ class ServeMpsInitSeg(MediaRequestBase):
     decorators = [uses_multi_period_stream]
 
     def get(self, mode: str, mps_name: str, ppk: int, filename: str, ext: str) -> flask.Response:
-        period = models.Period.get(pk=ppk)
+        period = None
+        if ppk < (1 << 63):
+            # larger values can not be a database key
+            period = models.Period.get(pk=ppk)
         if period is None or period.parent_pk != current_mps.pk:
             logging.warning('Period not found: mps=%s ppk=%d', mps_name, ppk)
             return flask.make_response('Period not found', 404)
@@ -533,7 +536,10 @@ class ServeMpsMedia(MediaRequestBase):
             segment_num: int | None = None,
             segment_time: int | None = None
             ) -> flask.Response:
-        period = models.Period.get(pk=ppk)
+        period = None
+        if ppk < (1 << 63):
+            # larger values can not be a database key
+            period = models.Period.get(pk=ppk)
         if period is None or period.parent_pk != current_mps.pk:
             logging.warning('Period not found: mps=%s ppk=%d', mps_name, ppk)
             return flask.make_response('Period not found', 404)
